@@ -78,6 +78,13 @@ def rule_text_verbatim(ctx: RuleContext, p: Program, rid: str) -> None:
         raise AnalysisError(f'TEXT-VERBATIM: only {len(calls)} from_raw_text calls in the parser (3 confirmed)')
     for c in calls:
         a = c.args[0] if c.args else None
+        if isinstance(a, ast.Name):
+            # a local bound once (assignment or walrus) to <lexer token>.value
+            binds = [x.value for x in ast.walk(pm.tree) if (isinstance(x, ast.NamedExpr) and x.target.id == a.id)
+                     or (isinstance(x, ast.Assign) and len(x.targets) == 1 and isinstance(x.targets[0], ast.Name) and x.targets[0].id == a.id)]
+            same_fn = [b_ for b_ in binds if abs(getattr(b_, 'lineno', 0) - c.lineno) < 12]
+            if len(same_fn) == 1:
+                a = same_fn[0]
         ok = isinstance(a, ast.Attribute) and a.attr == 'value' and isinstance(a.value, (ast.Name, ast.Subscript))
         n += 1
         ctx.check(ok, rid, f'parser:{norm(c.func)[:60]}', 'lexer text handed over verbatim',
@@ -957,9 +964,15 @@ def rule_meta_sem(ctx: RuleContext, p: Program, rid: str) -> None:
                         b.f['slot'] = args[1]
                         b.f['sets'] = b.f.get('sets', 0) + 1
                         return None
-                if isinstance(e.func, ast.Attribute) and e.func.attr == 'from_value' and isinstance(e.func.value, ast.Name) and e.func.value.id in raw_kinds:
-                    args = [self.expr(a, env) for a in e.args]
-                    return possem.Obj(e.func.value.id, {'value': args[0], 'fresh': True}, f'fresh {e.func.value.id}')
+                if isinstance(e.func, ast.Attribute) and e.func.attr == 'from_value':
+                    kind = e.func.value.id if isinstance(e.func.value, ast.Name) and e.func.value.id in raw_kinds and e.func.value.id not in env else None
+                    if kind is None:
+                        cv = self.expr(e.func.value, env)
+                        if isinstance(cv, possem.ClassRef) and cv.name in raw_kinds:
+                            kind = cv.name
+                    if kind is not None:
+                        args = [self.expr(a, env) for a in e.args]
+                        return possem.Obj(kind, {'value': args[0], 'fresh': True}, f'fresh {kind}')
                 if fname == 'isinstance' and len(e.args) == 2:
                     v = self.expr(e.args[0], env)
                     alts: list = []
@@ -976,9 +989,13 @@ def rule_meta_sem(ctx: RuleContext, p: Program, rid: str) -> None:
                     fl(e.args[1])
 
                     def one(a: ast.AST) -> bool:
-                        if isinstance(a, (ast.Name, ast.Attribute)):
+                        if isinstance(a, (ast.Name, ast.Attribute)) and not (isinstance(a, ast.Name) and a.id in env):
                             return self.instance_of(v, a, env)
-                        t = self.expr(a, env)               # a computed class: type(x)
+                        t = self.expr(a, env)               # a computed class: type(x), or a class taken from a table
+                        if isinstance(t, possem.Builtin):
+                            t = ('type', t.name)
+                        if isinstance(t, possem.ClassRef):
+                            t = ('type', t.name)
                         if isinstance(t, tuple) and t[:1] == ('type',):
                             if isinstance(v, possem.Obj):
                                 try:
@@ -996,6 +1013,10 @@ def rule_meta_sem(ctx: RuleContext, p: Program, rid: str) -> None:
                 fn_ = next((f for f in p.functions_in(m) if f.qualname == e.id), None)
                 if fn_ is not None:
                     return fn_
+                if e.id in raw_kinds:
+                    return possem.ClassRef(e.id)
+            if isinstance(e, ast.Attribute) and norm(e) in ('datetime.date', 'decimal.Decimal'):
+                return ('type', e.attr)
             return super().expr(e, env)
 
         def compare(self, op: Any, a: Any, b: Any, node: Any) -> bool:          # type: ignore[override]
@@ -1280,3 +1301,99 @@ def rule_claim_sem(ctx: RuleContext, p: Program, rid: str, max_len: int = 3) -> 
               f'{problem}: the attribution order (leading comment of the model below, else trailing comment of the model above, else standalone) rests on '
               f'this function claiming the adjacent comment whenever there is one; a model parsed on its own also needs the claim to include the '
               f'comment in its span', fn.where, note=f'{n} neighbourhoods')
+
+
+# ====================================================================== FIND-SEM (C14, added after twins round 3)
+def rule_find_sem(ctx: RuleContext, p: Program, rid: str, max_len: int = 4) -> None:
+    """finite-domain evaluation of _CommentClaimer._find_outer"""
+    import itertools
+    from . import possem
+    from .tokenstore import TS
+    ctx.rule(rid, f'_CommentClaimer._find_outer, interpreted over every run of up to {max_len} abstract tokens beyond the edge of the repeated field '
+                  f'(blank, zero-width mark, unclaimed comment selected / not selected for claiming, claimed comment, other token), with the model '
+                  f'limit at every position: it yields exactly the selected unclaimed comments it meets while it only steps over blanks, zero-width '
+                  f'tokens and unselected unclaimed comments, and stops at the first claimed comment, at the first other token, and once it has '
+                  f'stepped past the model limit; every yielded comment leaves the not-found set')
+    cl = p.cls('_CommentClaimer', 'models.internal.interleaving_comments')
+    fo = p.method(cl, '_find_outer', inherited=False)
+    m = p.module('models.internal.interleaving_comments')
+    ts = TS(p)
+    class_of = {'Newline': p.cls('Newline'), 'Whitespace': p.cls('Whitespace'), 'BlockComment': p.cls('BlockComment', 'models.block_comment'),
+                'Account': p.cls('Account'), 'Eol': p.cls('Eol')}
+
+    class Interp(possem.PosInterp):
+        tag = 'FIND-SEM'
+
+        def instance_of(self, v: Any, cls_expr: Any, env: dict) -> bool:          # type: ignore[override]
+            if not isinstance(v, possem.Obj) or v.cls not in class_of:
+                return False
+            target = p.resolve_expr(m, cls_expr)
+            if not isinstance(target, ClassInfo):
+                raise self.err(cls_expr, 'isinstance against an unknown class')
+            return class_of[v.cls].is_subclass_of(target)
+
+        def expr(self, e: Any, env: dict) -> Any:                 # type: ignore[override]
+            if isinstance(e, ast.Call) and isinstance(e.func, ast.Name) and e.func.id == 'isinstance' and e.func.id not in env and len(e.args) == 2:
+                v = self.expr(e.args[0], env)
+                alts: list = []
+
+                def fl(x: ast.AST) -> None:
+                    if isinstance(x, ast.BinOp) and isinstance(x.op, ast.BitOr):
+                        fl(x.left)
+                        fl(x.right)
+                    elif isinstance(x, ast.Tuple):
+                        for y in x.elts:
+                            fl(y)
+                    else:
+                        alts.append(x)
+                fl(e.args[1])
+                return any(self.instance_of(v, a_, env) for a_ in alts)
+            if isinstance(e, ast.Call):
+                f = self.expr(e.func, env) if not (isinstance(e.func, ast.Name) and e.func.id not in env) else None
+                if callable(f) and not isinstance(f, (FuncInfo, possem.Builtin, possem.Bound, possem.ClassRef, possem._Lambda)):
+                    return f(*[self.expr(a, env) for a in e.args])
+            return super().expr(e, env)
+
+    kinds = {'b': ('Whitespace', ' '), 'n': ('Newline', '\r\n'), 'z': ('Eol', ''), 'c': ('BlockComment', '; x'), 'u': ('BlockComment', '; y'), 'C': ('BlockComment', '; z'), 'o': ('Account', 'x')}
+    n = 0
+    problem = ''
+    for k in range(0, max_len + 1):
+        for seq in itertools.product('bnzcuCo', repeat=k):
+            for limit_at in range(-1, k):       # -1: the start token itself is the limit; otherwise the token at that position
+                start = possem.Obj('Eol', {'raw_text': ''}, 'start')
+                toks = [possem.Obj(kinds[ch][0], {'raw_text': kinds[ch][1], 'claimed': ch == 'C'}, f'{i}:{ch}') for i, ch in enumerate(seq)]
+                chain = [start] + toks
+                nxt = {id(t): (chain[i + 1] if i + 1 < len(chain) else None) for i, t in enumerate(chain)}
+                selected = [id(t) for t, ch in zip(toks, seq) if ch == 'c']
+                me = possem.Obj('_CommentClaimer', {'_comments_to_claim': list(selected)}, 'claimer')
+                limit = start if limit_at < 0 else toks[limit_at]
+                n += 1
+                # reference
+                want: list = []
+                prev = start
+                for t, ch in zip(toks, seq):
+                    if prev is limit:
+                        break
+                    if ch in 'bnz':
+                        pass
+                    elif ch in 'cu':
+                        if ch == 'c':
+                            want.append(t)
+                    else:
+                        break
+                    prev = t
+                it = Interp(ts, [], module=m)
+                try:
+                    got = it.call_function(fo, [me, start, (lambda t: nxt[id(t)])], {'limit': limit})
+                except possem.Raised as ex:
+                    problem = problem or f'tokens {"".join(seq) or "-"}: raises {ex}'
+                    continue
+                if [id(x) for x in (got or [])] != [id(x) for x in want] and not problem:
+                    legend = 'b blank, n CRLF line break, z zero-width, c unclaimed comment to claim, u unclaimed comment not asked for, C claimed comment, o other'
+                    problem = (f'tokens {"".join(seq) or "-"} beyond the edge ({legend}), model limit {"at the edge" if limit_at < 0 else "at token " + str(limit_at)}: '
+                               f'yields {[x.label for x in (got or [])]}, expected {[x.label for x in want]}')
+                elif not problem and any(id(x) in me.f['_comments_to_claim'] for x in want):
+                    problem = f'tokens {"".join(seq)}: a yielded comment stays in the not-found set'
+    if n < 1000 and not problem:
+        raise AnalysisError(f'FIND-SEM: only {n} runs evaluated')
+    ctx.check(not problem, rid, 'models.internal.interleaving_comments:_CommentClaimer._find_outer', 'outward scan', problem, fo.where, note=f'{n} runs')
